@@ -342,6 +342,7 @@ func Memoize[T any](f func() T) Func0[T] {
 	once := sync.Once{}
 	var ret T
 	return func(Unit) T {
+		verifYield("fp.Memoize")
 		once.Do(func() {
 			ret = f()
 		})
